@@ -523,6 +523,8 @@ impl<'a> Repr<'a> {
             } => {
                 packet.set_msg_type(Message::DstUnreachable);
                 packet.set_msg_code(reason.into());
+                // The second header word is unused in this message and must be zero.
+                NetworkEndian::write_u32(&mut packet.buffer.as_mut()[field::UNUSED], 0);
 
                 let mut ip_packet = Ipv4Packet::new_unchecked(packet.data_mut());
                 header.emit(&mut ip_packet, checksum_caps);
@@ -537,6 +539,8 @@ impl<'a> Repr<'a> {
             } => {
                 packet.set_msg_type(Message::TimeExceeded);
                 packet.set_msg_code(reason.into());
+                // The second header word is unused in this message and must be zero.
+                NetworkEndian::write_u32(&mut packet.buffer.as_mut()[field::UNUSED], 0);
 
                 let mut ip_packet = Ipv4Packet::new_unchecked(packet.data_mut());
                 header.emit(&mut ip_packet, checksum_caps);
